@@ -819,10 +819,82 @@ def uf_cases(draw):
     return case
 
 
+# =========================================================================== rows identified by label
+def oracle_roworder(case, R):
+    """Load cycles that recover the same rows but list them in different orders (differently sorted recovery
+    matrices): merge + form_extreme line the rows up by LABEL; the envelope, the governing case labels and the
+    per-cycle columns are those of the rows with that label, whatever the order of rows or of cycles"""
+    import warnings
+    from pyyeti import cla
+    rng = util.rng_of(case["seed"])
+    nrows, cycles, events = case["nrows"], case["cycles"], case["events"]
+    base = [f"LTM Row {i + 1:3d}" for i in range(nrows)]
+    # distinct values throughout (no ties: the governing case is then unique)
+    vals = rng.permutation(2 * nrows * len(cycles) * len(events)).astype(float) + 1.0
+    vals = vals.reshape(len(cycles), len(events), nrows, 2)
+    true = {}
+    for ci, cyc in enumerate(cycles):
+        for ei, ev in enumerate(events):
+            true[(cyc["name"], ev)] = np.column_stack((vals[ci, ei, :, 0], -vals[ci, ei, :, 1]))
+
+    def make_cycle(cyc):
+        order = cyc["order"]
+        drdefs = cla.DR_Def(dict(se=0, uf_reds=(1, 1, 1.2, 1.0)))
+        drdefs.add(name="LTM", desc="loads", units="N", labels=[base[i] for i in order], drfunc="no-func")
+        DR = cla.DR_Event()
+        DR.add(None, drdefs)
+        res = cla.DR_Results()
+        for ev in events:
+            res[ev] = DR.prepare_results("mission", ev)
+            res[ev].add_maxmin("LTM", true[(cyc["name"], ev)][order], ev, domain="time")
+        res.form_extreme(cyc["name"])
+        return res
+
+    with warnings.catch_warnings():
+        warnings.simplefilter("ignore")
+        top = cla.DR_Results()
+        names = top.merge([make_cycle(cycles[i]) for i in case["merge_order"]])
+        top.form_extreme()
+    want_names = [cycles[i]["name"] for i in case["merge_order"]]
+    R.check(names == want_names, "roworder_merge_names", f"{names}")
+    cat = top["extreme"]["LTM"]
+    labels = list(cat.drminfo.labels)
+    R.label(f"cycles={len(cycles)}", "rows_reordered" if any(c["order"] != list(range(nrows)) for c in cycles)
+            else "rows_same_order")
+    R.nontrivial(any(c["order"] != cycles[0]["order"] for c in cycles))
+    if not R.check(sorted(labels) == sorted(base) and list(cat.cases) == want_names, "roworder_labels_cases",
+                   f"{labels} / {cat.cases}"):
+        return
+    for r, lbl in enumerate(labels):
+        i = base.index(lbl)
+        best_mx = max(((true[(c["name"], e)][i, 0], f"{c['name']},{e}") for c in cycles for e in events))
+        best_mn = min(((true[(c["name"], e)][i, 1], f"{c['name']},{e}") for c in cycles for e in events))
+        cyc_mx = [max(true[(nm, e)][i, 0] for e in events) for nm in want_names]
+        cyc_mn = [min(true[(nm, e)][i, 1] for e in events) for nm in want_names]
+        got = (float(cat.ext[r, 0]), float(cat.ext[r, 1]), cat.maxcase[r], cat.mincase[r],
+               [float(x) for x in cat.mx[r]], [float(x) for x in cat.mn[r]])
+        want = (best_mx[0], best_mn[0], best_mx[1], best_mn[1], cyc_mx, cyc_mn)
+        R.check(got == want, "envelope_not_by_row_label", f"row '{lbl}': got {got} want {want}")
+
+
+@st.composite
+def roworder_cases(draw):
+    nrows = draw(st.integers(2, 7))
+    ncyc = draw(st.integers(2, 4))
+    cycles = []
+    for c in range(ncyc):
+        order = list(range(nrows)) if draw(st.integers(0, 3)) == 0 else list(draw(st.permutations(list(range(nrows)))))
+        cycles.append({"name": ["FLAC", "VLC", "VLC2", "DCLA"][c], "order": order})
+    return {"seed": draw(st.integers(0, 2 ** 31)), "nrows": nrows, "cycles": cycles,
+            "events": ["Liftoff", "MECO", "Sep"][: draw(st.integers(1, 3))],
+            "merge_order": list(draw(st.permutations(list(range(ncyc)))))}
+
+
 PARTS = [
     Part("extrema", oracle_extrema, strategy=lambda: ext_cases(2, ["all", "all", "none"]),
          quick=(4, 500), thorough=(16, 2000)),
     Part("recovery", oracle_recovery, strategy=rec_cases, quick=(8, 80), thorough=(16, 600)),
+    Part("roworder", oracle_roworder, strategy=roworder_cases, quick=(2, 60), thorough=(8, 300)),
     Part("apply_uf", oracle_apply_uf, strategy=uf_cases, quick=(4, 150), thorough=(16, 600)),
     # input classes that exposed defects F1 and F24 (both fixed in /repo): kept as their own parts
     Part("extrema_onecol", oracle_extrema, strategy=lambda: ext_cases(1, ["all", "none"]),
